@@ -249,11 +249,28 @@ def replay(path: str) -> int:
 
 
 def selftest() -> int:
-    r = tlc("Gen_Expander", "Gen_Expander_C04M.cfg", workers=1)
-    cases = r.cases
+    # (the C04M universe used here earlier no longer evaluates: its pages hold item kinds the reference
+    #  semantics of Transclusion.tla does not define; the repeated-call universe serves both parts)
+    r = tlc("Gen_ExpanderRep", "Gen_ExpanderRep_C13RQ.cfg", workers=1)
+    cases = [c for c in r.cases if c["shape"] in ("x2", "mixed") and c["o"]["tfn"] == "observe" and c["o"]["pfn"] == "none" and not c["o"]["pre"]]
     cases[0]["out"] = cases[0]["out"] + ["CORRUPT"]
     _G["cases"] = cases
     res = pmap(replay_chunk, ex.group_cases(cases), chunk=1)
     bad = [x for x in res if not x["ok"]]
-    print("corrupted expectations detected:", len(bad))
-    return 0 if len(bad) == 1 else 1
+    print("corrupted expected output detected:", len(bad), "of", len(cases), "cases")
+    if len(bad) != 1:
+        return 1
+    cases[0]["out"] = cases[0]["out"][:-1]
+    # repeated calls: an expectation in which the second copy of a call does not consult the hook must be rejected
+    cases = [c for c in r.cases if c["shape"] == "x2" and c["o"]["tfn"] == "observe" and c["o"]["pfn"] == "none" and not c["o"]["pre"]]
+    n = 0
+    for c in cases:
+        if len(c["hooks"]) >= 2 and len(c["hooks"]) % 2 == 0:
+            c["hooks"] = c["hooks"][: len(c["hooks"]) // 2]
+            n += 1
+    _G["cases"] = cases
+    res = pmap(replay_chunk, ex.group_cases(cases), chunk=1)
+    bad = [x for x in res if not x["ok"]]
+    print(f"repeated calls: {n} expectations without the second copy's hook calls, detected:", len(bad),
+          "e.g.", bad[0]["hookwhy"] if bad else None)
+    return 0 if n > 0 and len(bad) == n else 1
